@@ -414,7 +414,7 @@ func lifeCase(caseNo int) {
 func modeFidlife(tier string, args []string) {
 	n := 200
 	if tier == "thorough" {
-		n = 8000
+		n = 3000
 	}
 	for i := 0; i < n; i++ {
 		lifeCase(i)
